@@ -217,6 +217,7 @@ def run(chk):
                        '(empty classes at the top, bottom, in between) and proves linearity and the Gassner identity on exact integers; every state is evaluated through '
                        'fatigue.damage, gassner_miner_elementary/_haibach, solidity for 4 collective layouts (range, range/mean, from/to histograms, from/to/cycles frame), also with all loads in a second unit (2^-30) and with rule objects built from curve records carrying a foreign k_2; degenerate collectives (nothing counted) for the effective damage sum. '
                        'Non-trivial = at least one empty class and two occupied ones.')
+    chk.cov['rule'] += ' Also: all loads in a second unit (2^-30), rule objects built from curve records with a foreign k_2, records given at 10 / 90 % with scatter, a class of amplitude zero (empty / occupied), degenerate collectives, the lowest load levels (collective entirely below SD, k_1 = 2).'
     chk.cov['exhaustive'] = True
     chk.assumptions += ['power-of-two amplitudes and curve parameters (exact in float64); comparisons at rel 1e-11']
 
